@@ -163,6 +163,17 @@ pub fn run_parse(args: &[Sx]) -> Sx {
         with_type!(args[0].atom(), parse_one, &s, emit);
     })
 }
+fn ser_one<T: Rec + serde::Serialize + serde::de::DeserializeOwned>(r: T, emit: &dyn Fn(Sx)) {
+    use bincode::Options;
+    let opt = bincode::DefaultOptions::new();
+    let bytes = opt.serialize(&r).expect("bincode serialize failed");
+    emit(Sx::L(vec![a("bytes"), hex(&bytes)]));
+    emit(Sx::L(vec![a("rt"), match opt.deserialize::<T>(&bytes) { Ok(x) => x.sx(), Err(_) => a("none") }]));
+}
+/// (ser type record): the bincode (DefaultOptions) bytes chunk.rs would spill for this record, and their deserialization
+pub fn run_ser(args: &[Sx]) -> Sx {
+    with_panic(|emit| { with_record!(args[0].atom(), &args[1], ser_one, emit); })
+}
 pub fn run_misc(args: &[Sx]) -> Sx {
     with_panic(|emit| match args[0].atom() {
         "optf" => {
